@@ -28,7 +28,10 @@ let mk_handler (spec : string) (data : byte list) : handler =
     if e = "x" then { h_pp = exact (); h_err = None; h_havoc = [] }
     else if e = "r" then { h_pp = exact (); h_err = None; h_havoc = junk_havoc }
     else if String.length e > 0 && e.[0] = 'e' then
-      { h_pp = z_of_string (String.sub e 1 (String.length e - 1)); h_err = Some (z_of_int 7); h_havoc = [] }
+      (* "e<offset>" or "e<offset>@<k>": which error value it is does not matter to the model *)
+      let num = String.sub e 1 (String.length e - 1) in
+      let num = (match String.index_opt num '@' with Some i -> String.sub num 0 i | None -> num) in
+      { h_pp = z_of_string num; h_err = Some (z_of_int 7); h_havoc = [] }
     else { h_pp = z_of_string e; h_err = None; h_havoc = [] }
 
 let calls_str (obj : bool) (calls : call list) : string =
